@@ -49,33 +49,64 @@ theorem World.get_put_ne (w : World) (i j : Nat) (c : Option Core) (h : j ≠ i)
 
 /-! ### normal form of one API call -/
 
+def Action.isAppend : Action → Bool
+  | .planAppend .. => true
+  | _ => false
+
+/-- which API entry point a call is -/
+inductive ApiTag where
+  | construct | enter | exit | update | react | query | change | immediate | status | planAppend | planEdit | load
+  | replayEnter | replayTransition | attachLogger
+  deriving DecidableEq, Repr
+
+def Op.tag : Op → Option ApiTag
+  | .construct .. => some .construct
+  | .enter .. => some .enter
+  | .exit .. => some .exit
+  | .update .. => some .update
+  | .react .. => some .react
+  | .query .. => some .query
+  | .changeTo .. | .changeWith .. => some .change
+  | .immediateChangeTo .. | .immediateChangeWith .. => some .immediate
+  | .succeed .. | .fail .. => some .status
+  | .planAppend .. => some .planAppend
+  | .planClear .. | .planRemove .. => some .planEdit
+  | .load .. => some .load
+  | .replayEnter .. => some .replayEnter
+  | .replayTransition .. => some .replayTransition
+  | .attachLogger .. => some .attachLogger
+  | _ => none
+
 /-- which building block an accepted call runs, from which core (`slot` = what the slot held before), and
     what the call's own guard established -/
-inductive ApiStep (cfg : Cfg) (w : World) (env : Env) : Option Core → Core → Step → Prop
-  | constructManual (lg : Bool) : cfg.manual = true → ApiStep cfg w env none (initCore cfg lg) skip
-  | constructAuto (lg : Bool) : cfg.manual = false → ApiStep cfg w env none (initCore cfg lg) (initialEnter env)
-  | enter (c : Core) : cfg.manual = true → c.active = 255 → c.request.valid = false → ApiStep cfg w env (some c) c (initialEnter env)
-  | exit (c : Core) : cfg.manual = true → c.active ≠ 255 → ApiStep cfg w env (some c) c (finalExit env)
-  | update (c : Core) : c.active ≠ 255 → ApiStep cfg w env (some c) c (update env)
-  | react (c : Core) : c.active ≠ 255 → ApiStep cfg w env (some c) c (react env)
-  | query (c : Core) : c.active ≠ 255 → ApiStep cfg w env (some c) c (query env)
-  | change (c : Core) (d : Nat) (p : Option Nat) : c.active ≠ 255 → d < cfg.n → ApiStep cfg w env (some c) c (extChange env d p)
+inductive ApiStep (cfg : Cfg) (w : World) (env : Env) : ApiTag → Option Core → Core → Step → Prop
+  | constructManual (lg : Bool) : cfg.manual = true → ApiStep cfg w env .construct none (initCore cfg lg) skip
+  | constructAuto (lg : Bool) : cfg.manual = false → ApiStep cfg w env .construct none (initCore cfg lg) (initialEnter env)
+  | enter (c : Core) : cfg.manual = true → c.active = 255 → c.request.valid = false → ApiStep cfg w env .enter (some c) c (initialEnter env)
+  | exit (c : Core) : cfg.manual = true → c.active ≠ 255 → ApiStep cfg w env .exit (some c) c (finalExit env)
+  | update (c : Core) : c.active ≠ 255 → ApiStep cfg w env .update (some c) c (update env)
+  | react (c : Core) : c.active ≠ 255 → ApiStep cfg w env .react (some c) c (react env)
+  | query (c : Core) : c.active ≠ 255 → ApiStep cfg w env .query (some c) c (query env)
+  | change (c : Core) (d : Nat) (p : Option Nat) : c.active ≠ 255 → d < cfg.n → ApiStep cfg w env .change (some c) c (extChange env d p)
   | immediate (c : Core) (d : Nat) (p : Option Nat) : c.active ≠ 255 → d < cfg.n →
-      ApiStep cfg w env (some c) c (extChange env d p ⋙ processRequest env)
-  | status (c : Core) (id : Nat) (ok : Bool) : ApiStep cfg w env (some c) c (extStatus env id ok)
-  | planEdit (c : Core) (a : Action) : permitted cfg .plan 0 a = true → ApiStep cfg w env (some c) c (applyAction env 255 a)
+      ApiStep cfg w env .immediate (some c) c (extChange env d p ⋙ processRequest env)
+  | status (c : Core) (id : Nat) (ok : Bool) : ApiStep cfg w env .status (some c) c (extStatus env id ok)
+  | planAppend (c : Core) (o d : Nat) (p : Option Nat) : permitted cfg .plan 0 (.planAppend o d p) = true →
+      ApiStep cfg w env .planAppend (some c) c (applyAction env 255 (.planAppend o d p))
+  | planEdit (c : Core) (a : Action) : a.isAppend = false → permitted cfg .plan 0 a = true → ApiStep cfg w env .planEdit (some c) c (applyAction env 255 a)
   | load (c sc : Core) (src : Nat) : w.get src = some sc → (cfg.manual = true ∨ (c.active ≠ 255 ∧ sc.active ≠ 255)) →
-      ApiStep cfg w env (some c) c (load env (save cfg sc))
-  | replayEnter (c : Core) (d : Nat) : cfg.manual = true → c.active = 255 → d < cfg.n → ApiStep cfg w env (some c) c (replayEnter env d)
-  | replayClear (c : Core) : c.active ≠ 255 → ApiStep cfg w env (some c) c (modifyCore (fun c => { c with prev := c.prev.clear }))
-  | replayTransition (c : Core) (d : Nat) : c.active ≠ 255 → d < cfg.n → ApiStep cfg w env (some c) c (replayTransition env d)
-  | attachLogger (c : Core) (on : Bool) : ApiStep cfg w env (some c) c (modifyCore (fun c => { c with logger := on }))
+      ApiStep cfg w env .load (some c) c (load env (save cfg sc))
+  | replayEnter (c : Core) (d : Nat) : cfg.manual = true → c.active = 255 → d < cfg.n → ApiStep cfg w env .replayEnter (some c) c (replayEnter env d)
+  | replayClear (c : Core) : c.active ≠ 255 → ApiStep cfg w env .replayTransition (some c) c (modifyCore (fun c => { c with prev := c.prev.clear }))
+  | replayTransition (c : Core) (d : Nat) : c.active ≠ 255 → d < cfg.n → ApiStep cfg w env .replayTransition (some c) c (replayTransition env d)
+  | attachLogger (c : Core) (on : Bool) : ApiStep cfg w env .attachLogger (some c) c (modifyCore (fun c => { c with logger := on }))
 
 /-- the possible outcomes of `step` on instance `i` at history index `k` -/
 inductive StepShape (cfg : Cfg) (beh : Beh) (w : World) (k i : Nat) (op : Op) : World × List Ev → Prop
   | rejected (name : String) : StepShape cfg beh w k i op (w, [.rejected i k name])
-  | call (slot : Option Core) (c : Core) (f : Step) (ret : Core → Option Bool) (name : String) :
-      w.get i = slot → ApiStep cfg w ⟨cfg, beh, i, k⟩ slot c f → StepShape cfg beh w k i op (onCore cfg w i k name c f ret)
+  | call (tag : ApiTag) (slot : Option Core) (c : Core) (f : Step) (ret : Core → Option Bool) (name : String) :
+      op.tag = some tag → w.get i = slot → ApiStep cfg w ⟨cfg, beh, i, k⟩ tag slot c f →
+      StepShape cfg beh w k i op (onCore cfg w i k name c f ret)
   | destroyManual (c : Core) (name : String) : op = .destroy i → cfg.manual = true → w.get i = some c →
       StepShape cfg beh w k i op (w.put i none, [.api i k name (apiObs cfg c)])
   | destroyAuto (c : Core) (name : String) : cfg.manual = false → w.get i = some c →
@@ -93,8 +124,8 @@ theorem step_shape (cfg : Cfg) (beh : Beh) (w : World) (k : Nat) (op : Op) :
   · -- construct, free slot
     rename_i lg hget
     split
-    · rename_i hm; exact .call none _ _ _ _ hget (.constructManual _ hm)
-    · rename_i hm; exact .call none _ _ _ _ hget (.constructAuto _ (by simpa using hm))
+    · rename_i hm; exact .call _ none _ _ _ _ rfl hget (.constructManual _ hm)
+    · rename_i hm; exact .call _ none _ _ _ _ rfl hget (.constructAuto _ (by simpa using hm))
   · exact .rejected _
   · exact .rejected _
   · -- destroy
@@ -108,72 +139,72 @@ theorem step_shape (cfg : Cfg) (beh : Beh) (w : World) (k : Nat) (op : Op) :
     split
     · rename_i h
       simp only [Bool.and_eq_true, Bool.not_eq_true', bne_eq_false_iff_eq] at h
-      exact .call _ _ _ _ _ hget (.enter c h.1.1 (by simpa using h.1.2) h.2)
+      exact .call _ _ _ _ _ _ rfl hget (.enter c h.1.1 (by simpa using h.1.2) h.2)
     · exact .rejected _
   · -- exit
     rename_i c hget
     split
     · rename_i h
       simp only [Bool.and_eq_true] at h
-      exact .call _ _ _ _ _ hget (.exit c h.1 (ne255_of_active h.2))
+      exact .call _ _ _ _ _ _ rfl hget (.exit c h.1 (ne255_of_active h.2))
     · exact .rejected _
   · rename_i c hget
     split
-    · rename_i h; exact .call _ _ _ _ _ hget (.update c (ne255_of_active h))
+    · rename_i h; exact .call _ _ _ _ _ _ rfl hget (.update c (ne255_of_active h))
     · exact .rejected _
   · rename_i c hget
     split
-    · rename_i h; exact .call _ _ _ _ _ hget (.react c (ne255_of_active h))
+    · rename_i h; exact .call _ _ _ _ _ _ rfl hget (.react c (ne255_of_active h))
     · exact .rejected _
   · rename_i c hget
     split
-    · rename_i h; exact .call _ _ _ _ _ hget (.query c (ne255_of_active h))
+    · rename_i h; exact .call _ _ _ _ _ _ rfl hget (.query c (ne255_of_active h))
     · exact .rejected _
   · -- changeTo
     rename_i d c hget
     split
     · rename_i h
       simp only [Bool.and_eq_true, idOk, decide_eq_true_eq] at h
-      exact .call _ _ _ _ _ hget (.change c d none (ne255_of_active h.1) h.2)
+      exact .call _ _ _ _ _ _ rfl hget (.change c d none (ne255_of_active h.1) h.2)
     · exact .rejected _
   · rename_i d p c hget
     split
     · rename_i h
       simp only [Bool.and_eq_true, idOk, decide_eq_true_eq] at h
-      exact .call _ _ _ _ _ hget (.change c d (some p) (ne255_of_active h.1.1) h.1.2)
+      exact .call _ _ _ _ _ _ rfl hget (.change c d (some p) (ne255_of_active h.1.1) h.1.2)
     · exact .rejected _
   · rename_i d c hget
     split
     · rename_i h
       simp only [Bool.and_eq_true, idOk, decide_eq_true_eq] at h
-      exact .call _ _ _ _ _ hget (.immediate c d none (ne255_of_active h.1) h.2)
+      exact .call _ _ _ _ _ _ rfl hget (.immediate c d none (ne255_of_active h.1) h.2)
     · exact .rejected _
   · rename_i d p c hget
     split
     · rename_i h
       simp only [Bool.and_eq_true, idOk, decide_eq_true_eq] at h
-      exact .call _ _ _ _ _ hget (.immediate c d (some p) (ne255_of_active h.1.1) h.1.2)
+      exact .call _ _ _ _ _ _ rfl hget (.immediate c d (some p) (ne255_of_active h.1.1) h.1.2)
     · exact .rejected _
   · rename_i id c hget
     split
-    · exact .call _ _ _ _ _ hget (.status c id true)
+    · exact .call _ _ _ _ _ _ rfl hget (.status c id true)
     · exact .rejected _
   · rename_i id c hget
     split
-    · exact .call _ _ _ _ _ hget (.status c id false)
+    · exact .call _ _ _ _ _ _ rfl hget (.status c id false)
     · exact .rejected _
   · -- planAppend
     rename_i o d p c hget
     split
-    · rename_i h; exact .call _ _ _ _ _ hget (.planEdit c _ h)
+    · rename_i h; exact .call _ _ _ _ _ _ rfl hget (.planAppend c _ _ _ h)
     · exact .rejected _
   · rename_i c hget
     split
-    · rename_i h; exact .call _ _ _ _ _ hget (.planEdit c .planClear (by simpa [permitted] using h))
+    · rename_i h; exact .call _ _ _ _ _ _ rfl hget (.planEdit c .planClear rfl (by simpa [permitted] using h))
     · exact .rejected _
   · rename_i mask c hget
     split
-    · rename_i h; exact .call _ _ _ _ _ hget (.planEdit c (.planRemove mask) (by simpa [permitted] using h))
+    · rename_i h; exact .call _ _ _ _ _ _ rfl hget (.planEdit c (.planRemove mask) rfl (by simpa [permitted] using h))
     · exact .rejected _
   · -- save
     rename_i c hget
@@ -187,7 +218,7 @@ theorem step_shape (cfg : Cfg) (beh : Beh) (w : World) (k : Nat) (op : Op) :
       split
       · rename_i h
         simp only [Bool.and_eq_true, Bool.or_eq_true] at h
-        refine .call _ _ _ _ _ hget (.load c sc src hsrc ?_)
+        refine .call _ _ _ _ _ _ rfl hget (.load c sc src hsrc ?_)
         rcases h.2 with hm | ⟨h1, h2⟩
         · exact Or.inl hm
         · exact Or.inr ⟨ne255_of_active h1, ne255_of_active h2⟩
@@ -198,7 +229,7 @@ theorem step_shape (cfg : Cfg) (beh : Beh) (w : World) (k : Nat) (op : Op) :
     split
     · rename_i h
       simp only [Bool.and_eq_true, idOk, decide_eq_true_eq, Bool.not_eq_true', bne_eq_false_iff_eq] at h
-      exact .call _ _ _ _ _ hget (.replayEnter c d h.1.1.1.1.2 (by simpa using h.1.1.1.2) h.2)
+      exact .call _ _ _ _ _ _ rfl hget (.replayEnter c d h.1.1.1.1.2 (by simpa using h.1.1.1.2) h.2)
     · exact .rejected _
   · -- replayTransition
     rename_i d c hget
@@ -206,23 +237,25 @@ theorem step_shape (cfg : Cfg) (beh : Beh) (w : World) (k : Nat) (op : Op) :
     · rename_i h
       simp only [Bool.and_eq_true, Bool.or_eq_true, idOk, decide_eq_true_eq] at h
       split
-      · exact .call _ _ _ _ _ hget (.replayClear c (ne255_of_active h.1.2))
+      · exact .call _ _ _ _ _ _ rfl hget (.replayClear c (ne255_of_active h.1.2))
       · rename_i hd
-        refine .call _ _ _ _ _ hget (.replayTransition c d (ne255_of_active h.1.2) ?_)
+        refine .call _ _ _ _ _ _ rfl hget (.replayTransition c d (ne255_of_active h.1.2) ?_)
         rcases h.2 with h2 | h2
         · exact h2
         · exact absurd h2 hd
     · exact .rejected _
   · rename_i on c hget
     split
-    · exact .call _ _ _ _ _ hget (.attachLogger c on)
+    · exact .call _ _ _ _ _ _ rfl hget (.attachLogger c on)
     · exact .rejected _
   · exact .rejected _
   · exact .rejected _
 
 /-- `stepAll`: a `step` on the same instance, or an accepted copy construction -/
 inductive StepAllShape (cfg : Cfg) (beh : Beh) (w : World) (k i : Nat) (op : Op) : World × List Ev → Prop
-  | step {r} (op' : Op) : StepShape cfg beh w k i op' r → (op' = op ∨ ∀ j, op' ≠ .destroy j) → StepAllShape cfg beh w k i op r
+  | step {r} (op' : Op) : StepShape cfg beh w k i op' r →
+      (op' = op ∨ ((∀ j, op' ≠ .destroy j) ∧ (op'.tag = some .replayTransition ∨ op'.tag = some .replayEnter))) →
+      StepAllShape cfg beh w k i op r
   | copy (src : Nat) (sc : Core) : op = .copy i src → w.get i = none → w.get src = some sc →
       StepAllShape cfg beh w k i op (w.put i (some sc), [.api i k "copy" (apiObs cfg sc)])
 
@@ -236,11 +269,11 @@ theorem stepAll_shape (cfg : Cfg) (beh : Beh) (w : World) (k : Nat) (op : Op) :
     · exact .step _ (.rejected _) (Or.inl rfl)
   · rename_i i src
     split
-    · exact .step _ (step_shape cfg beh w k (.replayTransition i _)) (Or.inr fun j e => by cases e)
+    · exact .step _ (step_shape cfg beh w k (.replayTransition i _)) (Or.inr ⟨(fun j e => by cases e), (by simp [Op.tag])⟩)
     · exact .step _ (.rejected _) (Or.inl rfl)
   · rename_i i src
     split
-    · exact .step _ (step_shape cfg beh w k (.replayEnter i _)) (Or.inr fun j e => by cases e)
+    · exact .step _ (step_shape cfg beh w k (.replayEnter i _)) (Or.inr ⟨(fun j e => by cases e), (by simp [Op.tag])⟩)
     · exact .step _ (.rejected _) (Or.inl rfl)
   · exact .step _ (step_shape cfg beh w k op) (Or.inl rfl)
 
@@ -254,7 +287,7 @@ theorem onCore_snd (cfg : Cfg) (w : World) (i k : Nat) (name : String) (c : Core
       (f { core := c }).2 ++ [.api i k name (apiObs cfg (f { core := c }).1.core (ret (f { core := c }).1.core))] := rfl
 
 theorem apiStep_allEv {cfg : Cfg} {w : World} {env : Env} {P : Ev → Prop} (hP : EnvPred env P)
-    {slot : Option Core} {c : Core} {f : Step} (h : ApiStep cfg w env slot c f) : AllEv P f := by
+    {tag : ApiTag} {slot : Option Core} {c : Core} {f : Step} (h : ApiStep cfg w env tag slot c f) : AllEv P f := by
   cases h with
   | constructManual => exact allEv_skip P
   | constructAuto => exact allEv_initialEnter hP
@@ -266,6 +299,7 @@ theorem apiStep_allEv {cfg : Cfg} {w : World} {env : Env} {P : Ev → Prop} (hP 
   | change => exact allEv_extChange hP _ _
   | immediate => exact AllEv.seq (allEv_extChange hP _ _) (allEv_processRequest hP)
   | status => exact allEv_extStatus hP _ _
+  | planAppend => exact allEv_applyAction hP _ _
   | planEdit => exact allEv_applyAction hP _ _
   | load => exact allEv_load hP _
   | replayEnter => exact allEv_replayEnter hP _
@@ -284,7 +318,7 @@ theorem stepAll_events_inst (cfg : Cfg) (beh : Beh) (w : World) (k : Nat) (op : 
   | step op' hs _ =>
     cases hs with
     | rejected name => simp only [List.mem_singleton] at he; rw [he]; rfl
-    | call slot c f ret name hget hf =>
+    | call tag slot c f ret name htag hget hf =>
       rw [onCore_snd, List.mem_append] at he
       rcases he with he | he
       · exact apiStep_allEv (envPred_inst ⟨cfg, beh, op.inst, k⟩) hf _ e he
@@ -307,7 +341,7 @@ theorem stepAll_other (cfg : Cfg) (beh : Beh) (w : World) (k : Nat) (op : Op) (j
   | step op' hs _ =>
     cases hs with
     | rejected name => rfl
-    | call slot c f ret name hget hf => rw [onCore_fst]; exact World.get_put_ne _ _ _ _ hj
+    | call tag slot c f ret name htag hget hf => rw [onCore_fst]; exact World.get_put_ne _ _ _ _ hj
     | destroyManual c name _ hm hget => exact World.get_put_ne _ _ _ _ hj
     | destroyAuto c name hm hget => exact World.get_put_ne _ _ _ _ hj
     | save c name o hget => rfl
